@@ -198,10 +198,19 @@ def discharge_foreign_macro(site):
 
 def _cmp_defs(body, local):
     """if `local` (a bool) is defined by a comparison BinaryOp, return (op, a, b)"""
-    d = single_def(body, local)
-    if d and d[2] == "assign" and d[3]["rv"]["k"] == "bin":
+    hops = 0
+    while local is not None and hops < 6:
+        d = single_def(body, local)
+        if not d or d[2] != "assign":
+            return None
         rv = d[3]["rv"]
-        return rv["op"], rv["a"], rv["b"], d[0]
+        if rv["k"] == "bin":
+            return rv["op"], rv["a"], rv["b"], d[0]
+        if rv["k"] == "use":
+            local = op_local(rv["a"])
+            hops += 1
+            continue
+        return None
     return None
 
 
@@ -680,6 +689,77 @@ def discharge_exhaustive(site):
 
 
 DISCHARGERS.append(discharge_exhaustive)
+
+
+def discharge_is_some_guard(site):
+    """x.unwrap()/expect() dominated by the true edge of x.is_some() (or the false edge of
+    x.is_none()) on the same place, with no assignment to the place in between"""
+    if site.kind != "ext" or not re.search(r"Option::<T>::(unwrap|expect)$", site.callee):
+        return None
+    body = site.body
+    t = site.term
+    rp = receiver_place(body, t)
+    if rp is None:
+        return None
+    rkey = place_key(rp)
+    dom = dominators(body)
+    if site.bb not in dom:
+        return None
+    for d in dom[site.bb]:
+        bt = body.blocks[d]["t"]
+        if bt["k"] != "switch":
+            continue
+        l = op_local(bt["on"])
+        hops = 0
+        dd = None
+        while l is not None and hops < 4:
+            dd = single_def(body, l)
+            if dd and dd[2] == "assign" and dd[3]["rv"]["k"] == "use":
+                l = op_local(dd[3]["rv"]["a"]); hops += 1
+                continue
+            break
+        if not dd or dd[2] != "call":
+            continue
+        m = re.search(r"Option::<T>::(is_some|is_none)$", callee_path(dd[3]))
+        if not m:
+            continue
+        rp2 = receiver_place(body, dd[3])
+        if rp2 is None or place_key(rp2) != rkey:
+            continue
+        zero_t = [x for v, x in bt["targets"] if v == 0]
+        tgt = bt["otherwise"] if m.group(1) == "is_some" else (zero_t[0] if zero_t else None)
+        if tgt is not None and tgt in dom[site.bb] and _edge_dominates(body, d, tgt, site.bb):
+            return "is_some-guard: dominated by %s() == %s at %s" % (m.group(1), "true" if m.group(1) == "is_some" else "false", body.loc(bt.get("sp")))
+    return None
+
+
+def discharge_full_range(site):
+    """drain(..) / drain(0..) / split_off(0): full-range arguments never panic"""
+    if site.kind != "ext":
+        return None
+    name = site.callee.rsplit("::", 1)[-1]
+    body = site.body
+    t = site.term
+    if name == "drain" and len(t["args"]) > 1:
+        ty = operand_ty(body, t["args"][1]) or ""
+        if ty == "std::ops::RangeFull":
+            return "full-range: drain(..)"
+        if ty.startswith("std::ops::RangeFrom<"):
+            # RangeFrom { start: const 0 }
+            l = op_local(t["args"][1])
+            d = single_def(body, l) if l is not None else None
+            if d and d[2] == "assign" and d[3]["rv"]["k"] == "agg" and d[3]["rv"]["ops"]:
+                k = op_const(d[3]["rv"]["ops"][0])
+                if k is not None and k.get("v") == 0:
+                    return "full-range: drain(0..)"
+    if name == "split_off" and len(t["args"]) > 1:
+        k = op_const(t["args"][1])
+        if k is not None and k.get("v") == 0:
+            return "full-range: split_off(0)"
+    return None
+
+
+DISCHARGERS.extend([discharge_is_some_guard, discharge_full_range])
 
 
 def panic_scope(ctx, rule, crate, entry_regexes, scope, desc, extra=()):
